@@ -17,6 +17,7 @@
 
 mod bound {
     include!(concat!(env!("OUT_DIR"), "/bound.rs"));
+    include!(concat!(env!("OUT_DIR"), "/sites.rs"));
 }
 
 #[cfg(runlock_bound)]
@@ -344,8 +345,9 @@ fn main() {
         let outcomes = rec.outcomes.lock().unwrap();
         let vs: Vec<String> = viol.iter().map(|(k, m)| format!("{{\"kind\": {}, \"msg\": {}}}", json_str(k), json_str(m))).collect();
         println!(
-            "{{\"bound\": true, \"items\": [{}], \"schedules\": {}, \"distinct_outcomes\": {}, \"nontrivial\": {}, \"per_scenario\": [{}], \"violations\": [{}], \"sample_outcome\": {}, \"wall\": {:.2}}}",
+            "{{\"bound\": true, \"items\": [{}], \"handler_sites\": [{}], \"schedules\": {}, \"distinct_outcomes\": {}, \"nontrivial\": {}, \"per_scenario\": [{}], \"violations\": [{}], \"sample_outcome\": {}, \"wall\": {:.2}}}",
             items.join(", "),
+            bound::HANDLER_SITES.iter().map(|(w, n)| format!("{{\"expression\": {}, \"occurrences_in_server_src\": {}}}", json_str(w), n)).collect::<Vec<_>>().join(", "),
             rec.schedules.load(Ordering::Relaxed),
             outcomes.len(),
             rec.nontrivial.load(Ordering::Relaxed),
